@@ -9,6 +9,7 @@ import TzVerif.Proofs.Buffer
 import TzVerif.Proofs.SrcEqFind
 import TzVerif.Proofs.SrcEqList
 import TzVerif.Proofs.SrcEqEntry
+import TzVerif.Generated.StableC17   -- per run: the current translation (SrcNow) equals the baseline (Src) these theorems are about
 
 namespace TzVerif.C17
 open TzVerif.Model
